@@ -332,9 +332,9 @@ def check_wire(ctx):
             got[A.str_const(s.targets[0].slice)] = s
     for name, src in want.items():
         s = got.get(name)
-        ok = s is not None and canon(s.value) == canon(parse(src))
-        g = [(canon(t), pol) for t, pol in A.guards_of(s)] if s is not None else []
-        okg = (canon(parse("'%s' not in pars" % name)), True) in g
+        ok = s is not None and canon(A.inline_temporaries(s.value, s, fn)) == canon(parse(src))
+        g = A.term_strings(A.path_condition(s, fn, inline=False)) if s is not None else set()
+        okg = ("-'%s' in pars" % name) in g
         why = "out_pars['%s'] = %s" % (name, A.unparse(s.value)[:100] if s is not None else "missing")
         ctx.check(R, s or fn, "default prior of %s" % name, ok and okg, why if not ok else "default is not guarded by `'%s' not in pars`" % name, key="nl:" + name)
     ang = [n for n in ast.walk(fn) if isinstance(n, ast.ImportFrom) and any(a.name == "angle" for a in n.names)]
@@ -357,7 +357,7 @@ def check_wire(ctx):
     ctx.check(R, sK or fl, "default prior of K", okK, "out_pars['K'] = %s" % (A.unparse(sK.value)[:120] if sK is not None else "missing"), key="l:K")
     sv = got.get("name")
     NV = loopvar or "name"
-    okv = sv is not None and canon(sv.value) == canon(parse("xu.with_unit(pm.Normal(%s, 0.0, sigma_v[%s].value), sigma_v[%s].unit)" % (NV, NV, NV)))
+    okv = sv is not None and canon(A.inline_temporaries(sv.value, sv, fl)) == canon(parse("xu.with_unit(pm.Normal(%s, 0.0, sigma_v[%s].value), sigma_v[%s].unit)" % (NV, NV, NV)))
     lp = A.enclosing(sv, (ast.For,)) if sv is not None else None
     if okv and lp is not None:
         it, tg = lp.iter, lp.target
